@@ -28,7 +28,7 @@ func init() {
 			"the simple-schema model (harness/model/simple.go) is correct; exact rationals; Go regexp and strfmt.Default shared with the implementation as the property allows",
 			"sampled input space",
 		},
-		quick: 300000, thorough: 6000000,
+		quick: 300000, thorough: 20000000,
 	}})
 }
 
